@@ -73,7 +73,7 @@ Definition early_refusing (o : op) : bool :=
   match o with
   | Append _ _ | Extend _ _ | Insert _ _ _ | SetItem _ _ _ | Remove _ _ | Pop _ _ | DelItem _ _ | Clear _
   | DeleteLayer _ | SetVisible _ _ | SetLeft _ _ | SetTop _ _ | SetClip _ _
-  | ObsBbox _ | ObsSize _ | ObsRepr _ | ObsDesc _ | ObsFind _ _ | ObsVisible _ => true
+  | ObsBbox _ | ObsSize _ | ObsRepr _ | ObsDesc _ | ObsFind _ _ | ObsVisible _ | ObsExport _ _ => true
   | _ => false
   end.
 
